@@ -32,6 +32,21 @@ Sub-checks
            form itself is judged with tolerance 1e-9 (alloc: 1e-6). Array forms must be answered (raise = violation);
            lenient forms (list / tuple / row, integer and sequence COSTS) are counted when the tree raises and judged when it
            answers.
+           LARGE INTEGERS (points "large-integers"): BOTH vectors integer-typed with entries that are large for the type, so
+           that a product V_l C_l (a square, the sum of the products) evaluated in the integer type of the arguments would wrap:
+           classes products-beyond-uint8 (V {0, 12, 50, 200} x C {2, 32, 255}), -uint16 (V {0, 300, 15000, 60000} x C {2, 300,
+           65535}), -int32 (V {0, 6000, 1e5, 2e9} x C {5e4, 8e5, 2^31-1}), -int64 (V {0, 6e10, 5e11, 1e12} x C {2e7, 3.2e8,
+           2^52}), entries-beyond-uint64 (V {0, 2^66, 2^70} x C {1, 2^10, 2^64}: lists / tuples only), vectors of length 1..2
+           (thorough: 3) and 12 special vectors (the sum but no single product beyond the range; 20 and 30 geometric levels;
+           a zero variance inside), each with three rmse (powers of two: largest size about 1000 / 100 / a few units). Forms of
+           each vector: float64 (usual), int64, int32, int16, uint8, uint16, uint32, uint64, list and tuple of Python ints -
+           quick: every PAIR of forms with the usual rmse and both vectors in one integer form x rmse {Python int, np.int64,
+           np.int32, np.float64, 0-d}; thorough: the complete product for lengths <= 2. Oracle: the float64 form itself meets
+           sum V/N <= budget (1 + 1e-9) in EXACT RATIONAL arithmetic (Fractions of the integer letters; a level of positive
+           variance without a sample = infinite); every other form gives the SAME sizes - if not, the exact inequality decides
+           the key; arguments unchanged. Keys end with :large-values-<class>. In the alphabet since fix a8fe45e: rmse as a numpy
+           INTEGER scalar whose square leaves its type (np.int32(50000): the tree squared it in int32 and returned
+           negative sizes; switch RMSE_SQUARE_MUST_FIT).
            stop part - ml in {0, 1, 2, 3, 4, 8}^3 (for alpha > 2: {0, 1, 2, 8, 64, 512}^3, so that the third-last term can
            decide) preceded by nothing / one level, alpha {0.5, 1, 2, 2.5, 3, 4}, rmse {1, 2, 4, 8} (exact ties
            rem == tolerance included); the verdict of the USUAL form is itself judged one-sidedly against giles_estimate
@@ -39,6 +54,8 @@ Sub-checks
            forms of ml (integer dtypes, float32, read-only, strided, list / tuple of floats /
            ints), of alpha and of rmse (as above): same verdict as the usual form (key says whether a bias estimate above
            the tolerance is accepted), arguments unchanged.
+           The same lattice with means and rmse multiplied by 2^24 (values near the end of
+           int32; verdicts scale exactly) for alpha 1 and 3 (thorough: every alpha).
            engine part - ConvergenceRates / ConfigurationMultiLevel / Engine.price with their numbers as Python ints where
            whole (rmse=1, alpha=2), as numpy scalars (np.int64 levels and paths, np.float64 rates and rmse), rmse as a 0-d
            array; and the pricing run on copy.copy / copy.deepcopy / a dill round trip of the configuration after which the
@@ -105,7 +122,7 @@ Sub-checks
  In loop / profile / history / forms-engine the two functions of the criteria object are also watched for writing to the arrays
  the engine hands them (vl, cl, ml: compared with copies after every call).
 Not covered: zero
-costs in the forms sub-check (known finding, alloc0); a weak rate of exactly 0 given (2^0 - 1 = 0: the estimate is infinite); sample
+costs in the forms sub-check (known finding, alloc0); integer-scalar rmse whose square leaves its type (see forms); a weak rate of exactly 0 given (2^0 - 1 = 0: the estimate is infinite); sample
 sizes beyond 2^63 (rmse below about 1e-9 with unit variances); boolean / complex / object arrays; ConvergenceCriteria built from user
 functions other than the three of criteria.py; rmse outside the stated values; real coupling processes; initial_level < 2 (the bias test needs three levels: Engine.price raises IndexError there - the
 statement is silent); initial_level > maximum_level; initial_mc_paths = 0; nb_of_processes > 1 (C08).
@@ -1185,8 +1202,15 @@ def forms_cases(tier):
         out.append({"sub": "forms", "part": "alloc", "points": "lattice", "n": n, "rmse": None, "full": thorough})
     for r in range(len(W_RMSE)):
         out.append({"sub": "forms", "part": "alloc", "points": "lattice", "n": 3, "rmse": r, "full": False, "single": not thorough})
+    # BOTH vectors integer-typed with LARGE entries: the product V_l C_l leaves the range of the integer type
+    for rg in ["special"] + list(BIG_RANGES):
+        out.append({"sub": "forms", "part": "alloc", "points": "large-integers", "range": rg, "lengths": [1, 2], "full": thorough})
+        if thorough and rg != "special":
+            out.append({"sub": "forms", "part": "alloc", "points": "large-integers", "range": rg, "lengths": [3], "full": False})
     for a in range(len(W_ALPHA)):
         out.append({"sub": "forms", "part": "stop", "alpha": a, "full": False})
+    for a in (range(len(W_ALPHA)) if thorough else (1, 4)):  # the same lattice x 2^24 (means and rmse near the end of int32)
+        out.append({"sub": "forms", "part": "stop", "alpha": a, "full": False, "scale": 2.0 ** 24})
     if thorough:
         for a in range(len(W_ALPHA)):
             out.append({"sub": "forms", "part": "stop", "alpha": a, "full": True,
@@ -1237,6 +1261,8 @@ def _forms_alloc(sh, case):
 
     from rpylib.montecarlo.multilevel import criteria as K
 
+    if case["points"] == "large-integers":
+        return _forms_alloc_big(sh, case)
     crit = _criteria()
     tol = bias_tolerance(crit, 1.0)
     share = 1.0 - (tol if tol is not None else 0.0) ** 2
@@ -1353,6 +1379,199 @@ def _forms_alloc(sh, case):
         sh.sample({"sub": "forms", "part": "alloc", "combinations_of_forms": len(combos), "worst_ratio_to_budget": worst})
 
 
+# --- both vectors integer-typed, LARGE entries ---------------------------------------------------------------------------
+# The whole-number lattices above are small (products V_l C_l of at most 10^4 in int64 / float): an implementation that multiplies
+# or squares in the integer type of its arguments is right there. Here BOTH vectors are integer-typed and the entries are large
+# for the type: the product V_l C_l (and V_l^2, C_l^2, the sum of the products) leaves the range of uint8 / uint16 / int16 / int32 /
+# uint32 / int64 / uint64, or the entries themselves are Python ints beyond 2^64. Every entry is a Python int that a double holds
+# exactly, so the usual form (float64 arrays) is the same mathematical input.
+BIG_INT_FORMS = ["int64", "int32", "uint8", "uint16", "int16", "uint32", "uint64", "list-int", "tuple-int"]
+BIG_RMSE_FORMS = ["python-int", "np.int64", "np.int32", "np.float64", "zero-d-array"]
+BIG_RANGES = {  # class of the point -> (variance letters, cost letters)
+    "products-beyond-uint8": ([0, 12, 50, 200], [2, 32, 255]),
+    "products-beyond-uint16": ([0, 300, 15000, 60000], [2, 300, 65535]),
+    "products-beyond-int32": ([0, 6000, 100000, 2 * 10 ** 9], [50000, 800000, 2 ** 31 - 1]),
+    "products-beyond-int64": ([0, 6 * 10 ** 10, 5 * 10 ** 11, 10 ** 12], [2 * 10 ** 7, 32 * 10 ** 7, 2 ** 52]),
+    "entries-beyond-uint64": ([0, 2 ** 66, 2 ** 70], [1, 2 ** 10, 2 ** 64]),
+}
+# An rmse handed over as a numpy INTEGER scalar whose square leaves its type (np.int32(50000) ** 2 wraps) was answered with
+# negative sample sizes (rmse ** 2 in the scalar's type) until fix a8fe45e (rmse = float(rmse)): the form is IN the alphabet
+# (True would keep it out and count it).
+RMSE_SQUARE_MUST_FIT = False
+
+
+def big_vector_form(ints, form):
+    """The vector of Python ints in the given form, or None when the form cannot hold them."""
+    if form == USUAL:
+        return np.array([float(v) for v in ints], dtype=float)
+    if form == "list-int":
+        return [int(v) for v in ints]
+    if form == "tuple-int":
+        return tuple(int(v) for v in ints)
+    info = np.iinfo(form)
+    if any(v < info.min or v > info.max for v in ints):
+        return None
+    return np.array([int(v) for v in ints], dtype=form)
+
+
+def big_scalar_form(x, form):
+    """rmse (a power of two) in the given form; None when the form cannot hold it; "excluded" see RMSE_SQUARE_MUST_FIT."""
+    x = float(x)
+    if form in ("python-int", "np.int64", "np.int32"):
+        if not x.is_integer():
+            return None
+        if form == "python-int":
+            return int(x)
+        bits = 63 if form == "np.int64" else 31
+        if x >= 2.0 ** bits:
+            return None
+        if RMSE_SQUARE_MUST_FIT and x * x >= 2.0 ** bits:
+            return "excluded"
+        return getattr(np, form[3:])(int(x))
+    return scalar_form(x, form)
+
+
+def big_rmses(vt, ct):
+    """Three rmse (powers of two) for a point: the largest sample size is of the order of 1000, of 100, of a few units (only
+    a choice of scale: no oracle depends on it)."""
+    total = math.fsum(math.sqrt(v * c) for v, c in zip(vt, ct))
+    x = max(math.sqrt(v / c) for v, c in zip(vt, ct)) * total
+    if x == 0.0:
+        return [1.0, 4.0]
+    k = math.ceil(0.5 * math.log2(x / 4096.0))
+    return [2.0 ** k, 2.0 ** (k + 2), 2.0 ** (k + 5)]
+
+
+def big_points(case):
+    """(variances, costs, range class) as lists of Python ints."""
+    if case["range"] == "special":
+        pts = [([100000, 25000, 6000], [50000, 200000, 800000], "products-beyond-int32"),
+               ([90000, 0, 5000], [30000, 120000, 480000], "products-beyond-int32"),
+               ([70000, 70000, 70000, 70000], [70000, 70000, 70000, 70000], "products-beyond-int32"),  # sum beyond 2^32, V^2 too
+               ([10 ** 12, 25 * 10 ** 10, 6 * 10 ** 10], [2 * 10 ** 7, 8 * 10 ** 7, 32 * 10 ** 7], "products-beyond-int64"),
+               ([5 * 10 ** 11, 12 * 10 ** 10, 0, 3 * 10 ** 10], [2 * 10 ** 7, 8 * 10 ** 7, 16 * 10 ** 7, 32 * 10 ** 7], "products-beyond-int64"),
+               ([3 * 10 ** 9] * 5, [3 * 10 ** 9 + 1] * 5, "products-beyond-int64"),  # each product below 2^63, their sum is not
+               ([200, 100, 50, 25, 12], [2, 4, 8, 16, 32], "products-beyond-uint8"),
+               ([15, 15, 15, 15], [15, 15, 15, 15], "products-beyond-uint8"),  # each product fits uint8, the sum does not
+               ([60000, 30000, 15000], [16, 64, 255], "products-beyond-uint16"),
+               ([2 ** (45 - l) for l in range(30)], [2 ** (20 + l) for l in range(30)], "products-beyond-int64"),
+               ([2 ** (24 - l) for l in range(20)], [2 ** (10 + l) for l in range(20)], "products-beyond-int32"),
+               ([2 ** 70, 2 ** 68, 2 ** 66], [2 ** 10, 2 ** 11, 2 ** 12], "entries-beyond-uint64")]
+        return pts
+    V, C = BIG_RANGES[case["range"]]
+    return [(list(vt), list(ct), case["range"]) for n in case["lengths"] for vt in itertools.product(V, repeat=n)
+            for ct in itertools.product(C, repeat=n)]
+
+
+def exact_variance(vt, N):
+    """sum V_l / N_l as a Fraction (0 / 0 read as 0); None = infinite (a level of positive variance without a sample)."""
+    from fractions import Fraction
+
+    total = Fraction(0)
+    for v, k in zip(vt, N):
+        if v > 0:
+            if int(k) <= 0:
+                return None
+            total += Fraction(int(v), int(k))
+    return total
+
+
+def _forms_alloc_big(sh, case):
+    import warnings
+    from fractions import Fraction
+
+    crit = _criteria()
+    tol = bias_tolerance(crit, 1.0)
+    share = 1.0 - (tol if tol is not None else 0.0) ** 2
+    vforms = [USUAL] + BIG_INT_FORMS
+    if case["full"]:
+        combos = [(a, b, c) for a in vforms for b in vforms for c in [USUAL] + BIG_RMSE_FORMS]
+    else:  # every pair of vector forms with the usual rmse; every form of rmse with the two vectors in one integer form
+        combos = [(a, b, USUAL) for a in vforms for b in vforms] + [(a, a, c) for a in BIG_INT_FORMS for c in BIG_RMSE_FORMS]
+    combos = [c for c in combos if c != (USUAL,) * 3]
+    worst, answers = Fraction(0), set()
+
+    def call(f, *a):
+        with np.errstate(all="ignore"), warnings.catch_warnings():
+            warnings.simplefilter("ignore")
+            return f(*a)
+
+    def well_formed(N, n):
+        return isinstance(N, np.ndarray) and np.issubdtype(N.dtype, np.integer) and N.shape == (n,) and not np.any(N < 0)
+
+    for vt, ct, rg in big_points(case):
+        n = len(vt)
+        assert all(int(float(x)) == x for x in vt + ct), "letters must be exactly representable as doubles"
+        for rmse in big_rmses(vt, ct):
+            budget = Fraction(share) * Fraction(rmse) ** 2 * (1 + Fraction(1, 10 ** 9))
+            sh.count("evaluations")
+            N0 = np.asarray(call(crit.compute_mc_paths, rmse, big_vector_form(vt, USUAL), big_vector_form(ct, USUAL)))
+            if not well_formed(N0, n):
+                sh.violation(f"C06:forms:alloc:sample-sizes-not-non-negative-integers:usual-form:large-values-{rg}",
+                             f"compute_mc_paths({rmse}, {vt[:8]}, {ct[:8]}) (float64 arrays) = {N0!r}", None)
+                continue
+            keep = N0.copy()
+            answers.add(tuple(keep.tolist()[:6]))
+            est0 = exact_variance(vt, keep)
+            if est0 is None or est0 > budget:
+                sh.violation(f"C06:forms:alloc:estimator-variance-exceeds-variance-share:usual-form:large-values-{rg}",
+                             f"rmse={rmse}, vl={vt[:8]}, cl={ct[:8]} ({n} levels, float64 arrays): N={keep.tolist()[:8]}, sum V/N = "
+                             f"{'infinite' if est0 is None else float(est0):.9g} > {share:.6g} rmse^2 = {float(budget):.9g} (exact rational "
+                             f"arithmetic)", {"share": share})
+            else:
+                worst = max(worst, est0 / budget)
+            for vf, cf, rf in combos:
+                v, c, r = big_vector_form(vt, vf), big_vector_form(ct, cf), big_scalar_form(rmse, rf) if rf != USUAL else rmse
+                if isinstance(r, str):
+                    sh.count("form_outside_the_alphabet:integer-scalar-rmse-whose-square-leaves-its-type")
+                    continue
+                if v is None or c is None or r is None:
+                    sh.count("form_cannot_hold_the_values")
+                    continue
+                label = _label(variances=vf, costs=cf, rmse=rf) + f":large-values-{rg}"
+                lenient = vf in LENIENT_VECTOR_FORMS or cf != USUAL  # as in the small-value lattice: a refusal of these is counted
+                snaps = (_snapshot(v), _snapshot(c), _snapshot(r))
+                try:
+                    N = call(crit.compute_mc_paths, r, v, c)
+                except Exception as e:  # noqa: BLE001
+                    if lenient:
+                        sh.count("form_rejected_by_the_tree:" + label)
+                    else:
+                        sh.violation(f"C06:forms:alloc:raises:{label}",
+                                     f"compute_mc_paths({r!r}, {v!r}, {c!r}) raises {type(e).__name__}: {e}; the usual form gives "
+                                     f"{keep.tolist()[:8]}", None)
+                    continue
+                sh.count("evaluations")
+                sh.cls("forms:alloc:" + label)
+                N = np.asarray(N)
+                if not well_formed(N, n):
+                    sh.violation(f"C06:forms:alloc:sample-sizes-not-non-negative-integers:{label}",
+                                 f"compute_mc_paths({r!r}, {v!r}, {c!r}) = {N!r}; float64 arrays of the same numbers give "
+                                 f"{keep.tolist()[:8]}", None)
+                    continue
+                if not np.array_equal(N, keep):
+                    est = exact_variance(vt, N)
+                    if est is None or est > budget:
+                        sh.violation(f"C06:forms:alloc:estimator-variance-exceeds-variance-share:{label}",
+                                     f"compute_mc_paths({r!r}, {v!r}, {c!r}) = {N.tolist()[:8]}: sum V/N = "
+                                     f"{'infinite' if est is None else float(est):.9g} > {share:.6g} rmse^2 = {float(budget):.9g} (exact rational "
+                                     f"arithmetic); float64 arrays of the same numbers give {keep.tolist()[:8]}", {"share": share})
+                    else:
+                        sh.violation(f"C06:forms:alloc:sample-sizes-differ-from-the-usual-form:{label}",
+                                     f"compute_mc_paths({r!r}, {v!r}, {c!r}) = {N.tolist()[:8]}; float64 arrays of the same numbers give "
+                                     f"{keep.tolist()[:8]}", None)
+                if not (_unchanged(v, snaps[0]) and _unchanged(c, snaps[1]) and _unchanged(r, snaps[2])):
+                    sh.violation(f"C06:forms:alloc:argument-array-modified:{label}",
+                                 f"compute_mc_paths was handed ({snaps[2]!r}, {snaps[0]!r}, {snaps[1]!r}) and left ({r!r}, {v!r}, {c!r})", None)
+    sh.outcome(("large-integers", case["range"], tuple(case["lengths"]), round(float(worst), 9), len(answers)))
+    sh.states += len(answers)
+    if len(answers) >= 2:
+        sh.nontriv()
+    if case["range"] == "special":
+        sh.sample({"sub": "forms", "part": "alloc", "points": "large-integers", "combinations_of_forms": len(combos),
+                   "worst_ratio_to_budget": float(worst)})
+
+
 def _forms_stop(sh, case):
     crit = _criteria()
     share = variance_share(crit)
@@ -1364,12 +1583,13 @@ def _forms_stop(sh, case):
                           ("float32", "np.float32", "np.float32"), ("uint8", "python-int", USUAL), ("read-only", "zero-d-array", "zero-d-array")])
     alphas = W_ALPHA if case["alpha"] is None else [W_ALPHA[case["alpha"]]]
     accepted = 0
+    scale = float(case.get("scale", 1.0))  # a power of two: verdicts and estimates scale exactly
     for alpha in alphas:
         letters = case.get("letters") or (W_ML_HIGH if alpha > 2 else W_ML)
-        for rmse in W_STOP_RMSE:
+        for rmse in [r * scale for r in W_STOP_RMSE]:
             for lead in ((), (9.0,)):
                 for m3 in itertools.product(letters, repeat=3):
-                    mt = list(lead + m3)
+                    mt = [x * scale for x in lead + m3]
                     ml0 = np.array(mt, dtype=float)
                     sh.count("evaluations")
                     given = ml0.copy()
@@ -1417,7 +1637,7 @@ def _forms_stop(sh, case):
                                          f"criteria was handed ({snaps[1]!r}, {snaps[0]!r}, {snaps[2]!r}) and left ({a!r}, {m!r}, {r!r})", None)
             sh.outcome((alpha, rmse, accepted))
     sh.nontriv()
-    if case["alpha"] == 1:
+    if case["alpha"] == 1 and scale == 1.0:
         sh.sample({"sub": "forms", "part": "stop", "combinations_of_forms": len(combos), "accepted_in_usual_form": accepted})
 
 
